@@ -28,9 +28,15 @@ class Ctx:
 
 
 if __name__ == "__main__":
-    rounds, nthreads, seed = int(sys.argv[1]), int(sys.argv[2]), int(sys.argv[3])
     real = sys.stdout
+    if sys.argv[1] == "ref":
+        with contextlib.redirect_stdout(io.StringIO()):
+            ref = c17.run_long_sources_here(Ctx(0), 0, 0, ref_only=True)
+        real.write(json.dumps(ref))
+        sys.exit(0)
+    rounds, nthreads, seed = int(sys.argv[1]), int(sys.argv[2]), int(sys.argv[3])
+    ref = json.loads(sys.stdin.read() or "null")
     ctx = Ctx(seed)
     with contextlib.redirect_stdout(io.StringIO()):
-        errs = c17.run_long_sources_here(ctx, rounds, nthreads, shift=seed)
+        errs = c17.run_long_sources_here(ctx, rounds, nthreads, shift=seed, ref=ref)
     real.write(json.dumps({"errors": errs, "counts": ctx.counts}))
